@@ -1,5 +1,6 @@
 (* C13 — Tree insertion yields valid trees keeping all original nodes and the new tree.
-   Only statements + `exact`; proofs are in Grammar/InsertFacts.v.  Model: Grammar/Insert.v
+   Only statements + `exact`; proofs are in Grammar/InsertFacts.v and (proof extension)
+   Grammar/Insert{Direct,Track,Self,Ctx}More.v.  Model: Grammar/Insert.v
    (insert_tree and all its helpers of isla/existential_helpers.py; the grammar graph's answers
    are parameters `chain` / `pb`, fresh ids are 0).
 
@@ -9,21 +10,38 @@
        insert_tree g chain pb maxn m ins host = Ok rs /\ (In t rs -> inserted g host ins t)
    i.e. for every method mask no assertion fires and every result satisfies `inserted`.
 
-   What is proved for ALL inputs:
-     - C13_insertedb_spec      the acceptance procedure used by the check decides the spec
+   What is proved for ALL inputs (all grammars, oracles, trees; no size bounds):
+     - C13_insertedb_spec / C13_inserted_lossyb_spec
+                               the acceptance procedures used by the check decide the specs
      - C13_direct_ok           every direct embedding satisfies `inserted`
-     - C13_insert_tree_direct  the same for insert_tree with methods = DIRECT_EMBEDDING (_partial of
-                               the full statement: guard = mask is exactly DIRECT; results only,
-                               not assertion-freedom of the loop)
+     - C13_insert_tree_direct_no_assert   FULL for methods = DIRECT_EMBEDDING, assertion part: the
+                               outcome of insert_tree is a list or IndexError (disconnected oracle
+                               chain), never an AssertionError (oracle: chain_ok + chain_start;
+                               C13_chain_start_needed shows chain_start cannot be dropped)
+     - C13_insert_tree_direct_total       FULL for methods = DIRECT_EMBEDDING: with a connected chain
+                               oracle (chain_conn) the call returns a list and every element is `inserted`
+     - C13_self_embedding_ok   every tree of compute_self_embeddings that passes add_to_result's
+                               find_node filter satisfies `inserted` (ids of host/ins unique, not fresh)
+     - C13_insert_tree_partial the full statement's result part under the guard K_ctx m = false
+                               (every mask without CONTEXT_ADDITION: 1, 2, 3): every result is `inserted`
+     - C13_context_additions_lossy / C13_insert_tree_lossy_ok
+                               for EVERY mask every result satisfies `inserted_lossy` (valid tree, same
+                               root label, all host nodes kept with id and label, ROOT of ins kept)
+                               (oracle: + pb_start)
      - C13_path_to_tree_ok     trees built from a nonterminal chain are valid, rooted in the first
                                symbol, with the open leaf of the last symbol at depth |chain|-1
      - C13_open_terminal_rejected  a tree with an open node labelled by a terminal is never accepted
      - C13_connect_ok          one connection step of connect_trees: no assertion fires, result
                                valid, same root label, contains the added tree
-   Refuted: with CONTEXT_ADDITION in the mask (class K_ctx) results lose the inserted tree.
-   Not closed (stated, unproved; covered by the correspondence only): assertion-freedom and
-   `inserted` for SELF_EMBEDDING (insert_trees with two trees and higher-up insertion points). *)
-From ISLA Require Import Grammar Insert InsertFacts.
+   Refuted: with CONTEXT_ADDITION in the mask (class K_ctx) results lose the inserted tree
+   (C13_context_refuted).  The open finding is now characterised exactly: results are always
+   `inserted_lossy`; they are `inserted` whenever K_ctx m = false; the witness is `inserted_lossy`
+   and not `inserted` (C13_ctx_lossy_nonvacuous).
+   Still partial (stated, unproved; covered by the correspondence only): assertion-freedom of
+   insert_trees / compute_self_embeddings / compute_context_additions / add_to_result for masks
+   containing SELF_EMBEDDING or CONTEXT_ADDITION (the theorems for these masks are about the
+   returned trees, premise `... = Ok rs`). *)
+From ISLA Require Import Grammar Insert InsertFacts InsertDirectMore InsertTrackMore InsertSelfMore InsertCtxMore.
 From Coq Require Import List.
 Import ListNotations.
 
@@ -118,3 +136,112 @@ Example C13_lookalike_terminals :
   /\ is_nt [60;97;62]%N = true.
 Proof. exact lookalike_terminals. Qed.
 Print Assumptions C13_lookalike_terminals.
+
+(* ================= proof extension ================= *)
+
+(* --- (3) methods = DIRECT_EMBEDDING: no assertion of insert_tree / compute_direct_embeddings /
+   add_to_result can fire.  chain_start: a chain for (A, B) starts with A. *)
+Theorem C13_insert_tree_direct_no_assert : forall g chain pb maxn ins host,
+  closed_g g -> chain_ok chain ->
+  (forall A B ch, chain A B = Some ch -> exists rest, ch = A :: rest) ->
+  wf_tree g host -> wf_tree g ins ->
+  (exists rs, insert_tree g chain pb maxn DIRECT ins host = Ok rs) \/
+  insert_tree g chain pb maxn DIRECT ins host = Raise IndexErr.
+Proof. exact insert_tree_direct_no_assert. Qed.
+Print Assumptions C13_insert_tree_direct_no_assert.
+
+(* chain_conn: consecutive chain symbols X, Y have an alternative of X containing Y.  Then the
+   full statement holds for methods = DIRECT_EMBEDDING. *)
+Theorem C13_insert_tree_direct_total : forall g chain pb maxn ins host,
+  closed_g g -> chain_ok chain -> chain_start chain -> chain_conn g chain ->
+  wf_tree g host -> wf_tree g ins ->
+  exists rs, insert_tree g chain pb maxn DIRECT ins host = Ok rs /\
+             forall t, In t rs -> inserted g host ins t.
+Proof. exact insert_tree_direct_total. Qed.
+Print Assumptions C13_insert_tree_direct_total.
+
+Example C13_direct_hyps_satisfiable : chain_start ex_chain /\ chain_conn ex_g ex_chain.
+Proof. exact ex_direct_hyps. Qed.
+Print Assumptions C13_direct_hyps_satisfiable.
+
+(* chain_start is necessary: an oracle satisfying chain_ok only makes the first assertion of
+   compute_direct_embeddings fire *)
+Example C13_chain_start_needed :
+  insert_tree ex_g (fun _ _ => Some [s1; s1]) ex_pb 50 DIRECT (Node s1 5 true []) (Node s0 2 true [])
+  = Raise AssertErr.
+Proof. exact chain_start_needed. Qed.
+Print Assumptions C13_chain_start_needed.
+
+(* --- (1) self embedding.  uniq_ids host ins: the ids of host and ins are pairwise different and
+   none is 0 (the model's fresh id).  `contains t ins` is add_to_result's filter find_node(ins.id). *)
+Theorem C13_uniq_ids_def : forall host ins,
+  uniq_ids host ins <-> (NoDup (ids host ++ ids ins) /\ ~ In 0%N (ids host ++ ids ins)).
+Proof. exact (fun host ins => iff_refl _). Qed.
+Print Assumptions C13_uniq_ids_def.
+
+Theorem C13_self_embedding_ok : forall g pb reach maxn cp ins host r t,
+  wf_tree g ins -> uniq_ids host ins ->
+  self_embeddings g pb reach maxn cp ins host = Ok r -> In t r ->
+  contains t ins = true ->
+  inserted g host ins t.
+Proof. exact self_embeddings_ok. Qed.
+Print Assumptions C13_self_embedding_ok.
+
+(* the full statement's result part, guarded by the class of the open finding *)
+Theorem C13_insert_tree_partial : forall g chain pb maxn m ins host rs t,
+  closed_g g -> chain_ok chain -> wf_tree g host -> wf_tree g ins -> uniq_ids host ins ->
+  K_ctx m = false ->
+  insert_tree g chain pb maxn m ins host = Ok rs -> In t rs ->
+  inserted g host ins t.
+Proof. exact insert_tree_noctx_ok. Qed.
+Print Assumptions C13_insert_tree_partial.
+
+Example C13_uniq_ids_satisfiable : uniq_ids ex_host ex_ins.
+Proof. exact ex_uniq. Qed.
+Print Assumptions C13_uniq_ids_satisfiable.
+
+Example C13_noctx_nonvacuous :
+  K_ctx 3 = false /\
+  exists rs, insert_tree ex_g ex_chain ex_pb 50 3 ex_ins ex_host = Ok rs /\ 2 <= length rs.
+Proof. exact noctx_nonvacuous. Qed.
+Print Assumptions C13_noctx_nonvacuous.
+
+(* --- (2) context addition: lossy, but exactly that *)
+Theorem C13_inserted_lossyb_spec : forall g host ins r,
+  inserted_lossyb g host ins r = true <->
+  (wf_tree g r /\ lbl r = lbl host /\
+   (forall p n, subtree host p = Some n ->
+      exists q m, subtree r q = Some m /\ tid m = tid n /\ lbl m = lbl n) /\
+   exists q m, subtree r q = Some m /\ tid m = tid ins /\ lbl m = lbl ins).
+Proof. exact inserted_lossyb_spec. Qed.
+Print Assumptions C13_inserted_lossyb_spec.
+
+(* pb_start: every chain of paths_between(A, B) starts with A.  `wf_tree g t` and `contains t ins`
+   are what add_to_result asserts / filters. *)
+Theorem C13_context_additions_lossy : forall g pb reach maxn cp ins host r t,
+  (forall A B ch, In ch (pb A B) -> exists rest, ch = A :: rest) ->
+  wf_tree g host -> wf_tree g ins -> uniq_ids host ins ->
+  context_additions g pb reach maxn cp ins host = Ok r -> In t r ->
+  wf_tree g t -> contains t ins = true ->
+  inserted_lossy g host ins t.
+Proof. exact context_additions_lossy. Qed.
+Print Assumptions C13_context_additions_lossy.
+
+Theorem C13_insert_tree_lossy_ok : forall g chain pb maxn m ins host rs t,
+  closed_g g -> chain_ok chain -> pb_start pb ->
+  wf_tree g host -> wf_tree g ins -> uniq_ids host ins ->
+  insert_tree g chain pb maxn m ins host = Ok rs -> In t rs ->
+  inserted_lossy g host ins t.
+Proof. exact insert_tree_lossy_ok. Qed.
+Print Assumptions C13_insert_tree_lossy_ok.
+
+Example C13_pb_start_satisfiable : pb_start ex_pb.
+Proof. exact ex_pb_start. Qed.
+Print Assumptions C13_pb_start_satisfiable.
+
+(* the recorded witness lies exactly between the two specifications *)
+Example C13_ctx_lossy_nonvacuous :
+  exists rs t, insert_tree ex_g ex_chain ex_pb 50 CONTEXT ex_ins ex_host = Ok rs /\ In t rs /\
+    inserted_lossy ex_g ex_host ex_ins t /\ ~ inserted ex_g ex_host ex_ins t.
+Proof. exact ctx_lossy_nonvacuous. Qed.
+Print Assumptions C13_ctx_lossy_nonvacuous.
